@@ -24,6 +24,7 @@ RULE = (
     "the compiler map, .data scaling}; the relation of every derived circuit is re-checked after each "
     "step; 4 flags; distinct = (pipeline structure, history signature); non-trivial = the pipeline has a "
     "learnable tensor and >= 1 derived circuit"
+    " Also: twin pairs, frozen (non-learnable, randomly initialised) tensors, eval() / no_grad toggles between updates, operator relations recomputed from the operands' reference values;"
 )
 EXHAUSTIVE_SUBSPACES = ["relation of every circuit of the pipeline re-checked after every single step"]
 ASSUMPTIONS = ["reference interpreter vf/ref.py", "constrained raw leaves pushed out of their domain by a gradient step are re-drawn in place (counted as an update)"]
